@@ -964,12 +964,52 @@ let event_of_str (s : string) : event =
   | ["EC"] -> EvClear
   | _ -> failwith ("event " ^ s)
 let events_of_out o = if o = "-" then [] else List.map event_of_str (String.split_on_char '+' o)
+(* delivery counts, independent of the replica and of the model: while notifications are enabled an accepted call that
+   changed the stores (read off the implementation's own dumps before / after), a successful save and a successful clear
+   deliver exactly one notification (the two-call helpers delete_user / delete_role: one or two); any call made while
+   they are disabled, and any call that changed nothing, delivers none - whatever toggles and calls came before *)
+let c14_counts_ok (sts : string array) (os : string array) : bool =
+  let n = Array.length sts in
+  let ok = ref true and enabled = ref true in
+  let last_p = ref None and last_g = ref None and last_w = ref None in
+  for i = 0 to n - 1 do
+    let st = sts.(i) in
+    if st = "?ga:p" then last_p := Some os.(i)
+    else if st = "?ga:g" then last_g := Some os.(i)
+    else if st = "?wl" then last_w := Some (List.length (events_of_out os.(i)))
+    else if not (is_query st) then begin
+      (match step_of st with
+       | SOp (OEnableAutoNotify b) -> enabled := b
+       | SOp (OEnableAutoSave _ | OEnableAutoBuild _ | OEnableEnforce _) -> ()
+       | SOp o when i + 3 < n && sts.(i + 1) = "?ga:p" && sts.(i + 2) = "?ga:g" && sts.(i + 3) = "?wl"
+                    && (os.(i) = "1" || os.(i) = "0") ->
+         (match !last_p, !last_g, !last_w with
+          | Some bp, Some bg, Some bw ->
+            let delta = List.length (events_of_out os.(i + 3)) - bw in
+            let changed = os.(i + 1) <> bp || os.(i + 2) <> bg in
+            let two_call = (match o with ORbac (RDeleteUser _ | RDeleteRoleAll _) -> true | _ -> false) in
+            let always = (match o with OSave | OClear -> os.(i) = "1" | _ -> false) in
+            (match o with
+             | OLoad | OLoadFiltered _ | OSetModel _ | OSetAdapter _ | OSetRoleManager _ | OBuildRoleLinks
+             | OSetEffector | OAddFunction _ -> ()      (* reloads and reconfiguration are not notified *)
+             | _ ->
+               if not !enabled then (if delta <> 0 then ok := false)
+               else if always then (if delta <> 1 then ok := false)
+               else if changed then (if not (delta = 1 || (two_call && delta = 2)) then ok := false)
+               else if delta <> 0 then ok := false)
+          | _ -> ())
+       | _ -> ());
+      last_p := None; last_g := None
+    end
+  done;
+  !ok
+
 let pred_c14 line spec ad flags steps impl =
   match impl_results impl with
   | Some outs ->
     let sts = Array.of_list (steps_list steps) and os = Array.of_list outs in
     let n = Array.length sts in
-    if n <> Array.length os then false else begin
+    if n <> Array.length os then false else if not (c14_counts_ok sts os) then false else begin
       let d = modeldef_of_spec spec in
       match new_enforcer d (adapter_of_spec ad) true with
       | (s0, Ok _) ->
